@@ -25,6 +25,20 @@ Qed.
 Lemma uniform_single y : uniform [y].
 Proof. intros m m' [<-|[]] [<-|[]] v. tauto. Qed.
 
+Lemma dedup_nodup L : NoDup (dedup L).
+Proof.
+  induction L as [|y r IH]; cbn; [constructor|]. constructor.
+  - intros I. apply filter_In in I as [_ I]. rewrite (proj2 (sol_eqb_eq y y) eq_refl) in I. discriminate.
+  - now apply NoDup_filter'.
+Qed.
+
+Lemma dedup_perm A B : Permutation A B -> Permutation (dedup A) (dedup B).
+Proof.
+  intros P. apply NoDup_Permutation; try apply dedup_nodup.
+  intros x. rewrite !dedup_in. split; apply Permutation_in; [exact P|now symmetry].
+Qed.
+
+
 Lemma NoDup_map_inj {A B} (f : A -> B) l :
   (forall x y, In x l -> In y l -> f x = f y -> x = y) -> NoDup l -> NoDup (map f l).
 Proof.
@@ -33,19 +47,6 @@ Proof.
     rewrite (Inj a b); auto; [now left|now right].
   - apply IH. intros x y Ix Iy. apply Inj; now right.
 Qed.
-
-Lemma sorted_restrict f lo m : sorted_from lo m = true -> sorted_from lo (restrict f m) = true.
-Proof.
-  revert lo. induction m as [|[w u] r IH]; intros lo S; cbn; [reflexivity|].
-  cbn in S. apply andb_true_iff in S as [A B].
-  destruct (f w); cbn.
-  - rewrite A. cbn. now apply IH.
-  - apply IH. eapply sorted_from_weaken; [|exact B].
-    intros v H. destruct lo as [l|]; [|reflexivity]. cbn in *. apply N.ltb_lt in A, H. apply N.ltb_lt. lia.
-Qed.
-
-Lemma wf_restrict f m : sol_wf m = true -> sol_wf (restrict f m) = true.
-Proof. apply sorted_restrict. Qed.
 
 Lemma ext_step_inv ds g v e m :
   sol_wf m = true -> lookup v m = None ->
@@ -118,6 +119,11 @@ Proof.
     * eapply bu_wf; eauto.
     * eapply bu_wf; eauto.
   - cbn [eval_bu]. now apply nodup_rows_NoDup.
+  - (* Project that drops nothing *)
+    cbn [eval_bu]. apply andb_true_iff in D as [D Sv]. rewrite subsetv_in in Sv.
+    rewrite map_id_in; [now apply IHp|].
+    intros m I. apply restrict_all; [eapply bu_wf; eauto|].
+    intros w Hw. apply memv_in, Sv. eapply maybe_sound; eauto.
   - cbn [eval_bu]. destruct g as [t|v].
     + destruct (existsb _ _); [|constructor]. apply IHp; auto. now apply named_graph_NoDup.
     + apply andb_true_iff in D as [D U].
@@ -133,6 +139,7 @@ Proof.
         assert (L : lookup v (merge m [(v, fst ng)]) = Some (fst ng)).
         { rewrite lookup_merge by reflexivity. cbn. now rewrite N.eqb_refl. }
         rewrite E, lookup_merge in L by reflexivity. cbn in L. rewrite N.eqb_refl in L. congruence.
+  - cbn [eval_bu]. apply dedup_nodup.
 Qed.
 
 (* ---- set(...) on a duplicate-free list ---- *)
@@ -207,29 +214,6 @@ Proof.
 Qed.
 
 (* ---- helpers for Extend and Minus ---- *)
-Lemma dedup_in x L : In x (dedup L) <-> In x L.
-Proof.
-  induction L as [|y r IH]; cbn; [tauto|]. split.
-  - intros [->|I]; [now left|]. apply filter_In in I as [I _]. right. now apply IH.
-  - intros [->|I]; [now left|].
-    destruct (sol_eqb y x) eqn:E; [apply sol_eqb_eq in E; now left|].
-    right. apply filter_In. split; [now apply IH|]. now rewrite E.
-Qed.
-
-Lemma dedup_nodup L : NoDup (dedup L).
-Proof.
-  induction L as [|y r IH]; cbn; [constructor|]. constructor.
-  - intros I. apply filter_In in I as [_ I]. rewrite (proj2 (sol_eqb_eq y y) eq_refl) in I. discriminate.
-  - now apply NoDup_filter'.
-Qed.
-
-Lemma dedup_perm A B : Permutation A B -> Permutation (dedup A) (dedup B).
-Proof.
-  intros P. apply NoDup_Permutation; try apply dedup_nodup.
-  intros x. rewrite !dedup_in. split; apply Permutation_in; [exact P|now symmetry].
-Qed.
-
-
 Lemma forallb_in_iff {A} (f : A -> bool) l l' :
   (forall x, In x l <-> In x l') -> forallb f l = forallb f l'.
 Proof.
@@ -341,16 +325,88 @@ Proof.
     destruct (lookup w c) eqn:Lc; [|reflexivity]. exfalso. apply (Hc w M); congruence.
 Qed.
 
+(* ---- sub-SELECT as the right operand of a lazy join: its solutions forget the
+   part of the context that is not projected; evalLazyJoin merges it back ---- *)
+Lemma project_weak a0 (f : var -> bool) T Bq :
+  sol_wf a0 = true -> all_wf Bq -> Permutation T (join_ctx a0 Bq) ->
+  (forall m, In m Bq -> forall v, lookup v m <> None -> lookup v a0 <> None -> f v = true) ->
+  Permutation (map (fun s => merge s a0) (map (restrict f) T)) (join_ctx a0 (map (restrict f) Bq)).
+Proof.
+  intros Wa WB P H. rewrite map_map.
+  rewrite (Permutation_map (fun s => merge (restrict f s) a0) P).
+  apply Permutation_refl'. apply map_join_ctx. intros m I. assert (Wm := WB m I).
+  assert (Wr : sol_wf (restrict f m) = true) by now apply wf_restrict.
+  assert (E : compat_prop (restrict f m) a0 <-> compat_prop m a0).
+  { split.
+    - intros C v t u Lm La. apply (C v t u); [|exact La]. rewrite lookup_restrict.
+      rewrite (H m I v); [exact Lm|congruence|congruence].
+    - intros C v t u Lr La. rewrite lookup_restrict in Lr. destruct (f v); [|discriminate]. eapply C; eauto. }
+  split.
+  - destruct (compatible (restrict f m) a0) eqn:C1, (compatible m a0) eqn:C2; try reflexivity.
+    + apply (compatible_spec _ _ Wr) in C1. apply E in C1. apply (compatible_spec _ _ Wm) in C1. congruence.
+    + apply (compatible_spec _ _ Wm) in C2. apply E in C2. apply (compatible_spec _ _ Wr) in C2. congruence.
+  - intros C. apply (compatible_spec _ _ Wm) in C.
+    apply sol_ext; [apply wf_merge, wf_restrict, wf_merge, Wa|apply wf_merge, Wa|].
+    intros v. rewrite !lookup_merge by assumption. rewrite !lookup_restrict, lookup_merge by assumption.
+    destruct (lookup v a0) as [u|] eqn:La; destruct (f v); destruct (lookup v m) as [t|] eqn:Lm; try reflexivity.
+    f_equal. symmetry. eapply C; eauto.
+Qed.
+
+(* ---- comparisons on terms that are not boolean literals ---- *)
+Definition con_nb (e : expr) : bool := match e with ECon t => nb t | _ => true end.
+Definition cmp_ok (a b : expr) : bool := atom a && atom b && con_nb a && con_nb b.
+
+Lemma atom_typed ds g m1 full m2 a :
+  atom a = true -> con_nb a = true ->
+  (forall v, In v (evars a) -> lookup v m1 = lookup v m2) ->
+  (forall v t, In v (evars a) -> lookup v m2 = Some t -> nb t = true) ->
+  expr_td ds g m1 full a = expr_bu ds g m2 a
+  /\ forall t, expr_bu ds g m2 a = Some t -> nb t = true.
+Proof.
+  destruct a; try discriminate; intros _ C H T; cbn.
+  - split; [apply H; now left|]. intros t L. apply (T v t); [now left|exact L].
+  - split; [reflexivity|]. intros t0 [= <-]. exact C.
+Qed.
+
+Lemma cmp_atoms_agree ds g full op a b m1 m2 :
+  cmp_ok a b = true ->
+  (forall v, In v (evars a ++ evars b) -> lookup v m1 = lookup v m2) ->
+  (forall v t, In v (evars a ++ evars b) -> lookup v m2 = Some t -> nb t = true) ->
+  expr_td ds g m1 full (ECmp op a b) = expr_bu ds g m2 (ECmp op a b).
+Proof.
+  intros S H T. unfold cmp_ok in S.
+  apply andb_true_iff in S as [S N2]. apply andb_true_iff in S as [S N1]. apply andb_true_iff in S as [A1 A2].
+  destruct (atom_typed ds g m1 full m2 a A1 N1) as [E1 T1].
+  { intros v Iv. apply H. apply in_or_app. now left. }
+  { intros v t Iv. apply T. apply in_or_app. now left. }
+  destruct (atom_typed ds g m1 full m2 b A2 N2) as [E2 T2].
+  { intros v Iv. apply H. apply in_or_app. now right. }
+  { intros v t Iv. apply T. apply in_or_app. now right. }
+  cbn. rewrite E1, E2.
+  destruct (expr_bu ds g m2 a) as [t1|]; [|reflexivity].
+  destruct (expr_bu ds g m2 b) as [t2|]; [|reflexivity]. cbn.
+  apply cmp_nb; auto.
+Qed.
+
+Lemma inter_empty_elim (a b : list var) v : nonempty (inter a b) = false -> In v a -> In v b -> False.
+Proof.
+  intros E Ia Ib. assert (In v (inter a b)) by (unfold inter; apply filter_In; split; [exact Ia|now apply memv_in]).
+  destruct (inter a b); [destruct H|discriminate].
+Qed.
+
+(* graphs the evaluation runs on: sets of triples without boolean literals *)
+Definition gok (g : graph) : Prop := NoDup g /\ graph_nb g = true.
+
 (* ---- the fragment ---- *)
 (* FILTER: an expression without EXISTS and without a literal-kind question
    ([expr_ok]); what rdflib shows it of the context is what the algebra gives it
    ([vis_ok] = the negation of the trigger of finding F-C04-7).  Errors allowed. *)
 Definition filter_ok (pushed : list var) (nis : bool) (fv : option (list var)) (e : expr) (q : alg) : bool :=
-  negb nis && expr_ok e && vis_ok pushed fv q e.
+  negb nis && vis_ok pushed fv q e.
 
 (* BIND: the target is new (negation of the trigger of F-C04-1), expression as for FILTER *)
 Definition extend_ok (pushed : list var) (xv : option (list var)) (q : alg) (v : var) (e : expr) : bool :=
-  negb (memv v pushed) && negb (memv v (maybe q)) && expr_ok e && vis_ok pushed xv q e.
+  negb (memv v pushed) && negb (memv v (maybe q)) && vis_ok pushed xv q e.
 
 (* MINUS: the negation of the trigger of finding F-C04-2 *)
 Definition minus_ok (pushed : list var) (a b : alg) : bool :=
@@ -360,64 +416,265 @@ Definition minus_ok (pushed : list var) (a b : alg) : bool :=
 (* OPTIONAL: the negations of the triggers of findings F-C04-5 and F-C04-6
    (F-C04-4 cannot occur: no sub-SELECT in the fragment), filter as for FILTER *)
 Definition leftjoin_ok (pushed : list var) (pv : option (list var)) (a b : alg) (e : expr) : bool :=
-  expr_ok e && negb (nonempty (inter (inter (evars e) pushed) (maybe a ++ maybe b)))
+  negb (nonempty (inter (inter (evars e) pushed) (maybe a ++ maybe b)))
   && match pv with
      | Some vs => subsetv (maybe a) vs
                   && (negb (nonempty pushed) || subsetv (inter vs pushed) (cert a))
      | None => negb (nonempty pushed)
      end.
 
-Fixpoint frag (names : list term) (pushed : list var) (p : alg) : bool :=
+Definition optl (o : option (list var)) : list var := match o with Some l => l | None => [] end.
+
+(* [frag]: patterns; [efrag]: expressions - comparisons between atoms, no compared
+   variable may hold a boolean (the local form of the negation of the trigger of
+   F-C04-9), EXISTS over a pattern of the fragment (its top filter, which rdflib
+   marks no_isolated_scope, sees the merged solution) *)
+Fixpoint frag (names : list term) (pushed : list var) (p : alg) {struct p} : bool :=
   match p with
   | LeftJoin pv a b e =>
       leftjoin_ok pushed pv a b e && frag names pushed a && frag names (pushed ++ maybe a) b
+      && efrag names (pushed ++ maybe a ++ maybe b) e
+      && negb (nonempty (inter (cmp_vars_e e) (bool_vars a ++ bool_vars b)))
   | Minus a b => frag names pushed a && frag names pushed b && minus_ok pushed a b
-  | Extend xv q v e => extend_ok pushed xv q v e && frag names pushed q
+  | Extend xv q v e =>
+      extend_ok pushed xv q v e && frag names pushed q
+      && efrag names (inter pushed (optl xv) ++ maybe q) e
+      && negb (nonempty (inter (cmp_vars_e e) (bool_vars q)))
   | BGP _ => true
-  | Values rows => forallb sol_wf rows
+  | Values rows => forallb sol_wf rows && forallb (fun r => forallb (fun p => nb (snd p)) r) rows
   | Union a b => frag names pushed a && frag names pushed b
   | Join lz a b =>
-      frag names pushed a && frag names (if lz then pushed ++ maybe a else pushed) b
+      frag names pushed a
+      && (frag names (if lz then pushed ++ maybe a else pushed) b
+          || match b with
+             | Project q vs =>
+                 (* a sub-SELECT pushed into by a lazy join: projection keeps the context
+                    variables it mentions (= negation of the trigger of F-C04-4) *)
+                 lz && frag names (pushed ++ maybe a) q
+                 && subsetv (inter (pushed ++ maybe a) (allvars q)) vs
+             | _ => false
+             end)
       && (lz || hash_ok pushed b)
-  | Filter nis fv e q => filter_ok pushed nis fv e q && frag names pushed q
+  | Project q _ | Distinct q =>
+      (* elsewhere: only where no binding can be pushed in *)
+      negb (nonempty pushed) && frag names pushed q
+  | Filter nis fv e q =>
+      filter_ok pushed nis fv e q && frag names pushed q
+      && efrag names (inter pushed (optl fv) ++ maybe q) e
+      && negb (nonempty (inter (cmp_vars_e e) (bool_vars q)))
   | Graph _ q => frag names pushed q
-  | _ => false
+  end
+with efrag (names : list term) (pushed : list var) (e : expr) {struct e} : bool :=
+  match e with
+  | EVar _ | ECon _ | EBound _ => true
+  | ECmp _ a b => cmp_ok a b
+  | EAnd a b | EOr a b => efrag names pushed a && efrag names pushed b
+  | ENot a => efrag names pushed a
+  | EExists _ p =>
+      match p with
+      | Filter true _ e' q =>
+          frag names pushed q && efrag names (pushed ++ maybe q) e'
+          && negb (nonempty (inter (cmp_vars_e e') (bool_vars q)))
+      | _ => frag names pushed p
+      end
   end.
 
-Lemma frag_shape names p : forall pushed, frag names pushed p = true -> shape p = true.
+Lemma frag_shape_aux names p :
+  (forall pushed, frag names pushed p = true -> shape p = true)
+  /\ match p with Project q _ => forall pushed, frag names pushed q = true -> shape q = true | _ => True end.
 Proof.
-  induction p; cbn [frag shape]; try discriminate; intros pushed F.
+  induction p; cbn [frag shape]; (split; [intros pushed F|try exact I]).
   - reflexivity.
-  - apply andb_true_iff in F as [F _]. apply andb_true_iff in F as [F1 F2].
-    rewrite (IHp1 _ F1), (IHp2 _ F2). reflexivity.
-  - apply andb_true_iff in F as [F F2]. apply andb_true_iff in F as [_ F1].
-    rewrite (IHp1 _ F1), (IHp2 _ F2). reflexivity.
-  - apply andb_true_iff in F as [_ F]. eauto.
-  - apply andb_true_iff in F as [F1 F2]. rewrite (IHp1 _ F1), (IHp2 _ F2). reflexivity.
-  - apply andb_true_iff in F as [F _]. apply andb_true_iff in F as [F1 F2].
-    rewrite (IHp1 _ F1), (IHp2 _ F2). reflexivity.
-  - apply andb_true_iff in F as [_ F]. eauto.
+  - destruct IHp1 as [IH1 _], IHp2 as [IH2 IHq].
+    apply andb_true_iff in F as [F _]. apply andb_true_iff in F as [F1 F2].
+    rewrite (IH1 _ F1). cbn. apply orb_true_iff in F2 as [F2|F2]; [eauto|].
+    destruct p2; try discriminate. apply andb_true_iff in F2 as [F2 _]. apply andb_true_iff in F2 as [_ F2].
+    cbn. eauto.
+  - destruct IHp1 as [IH1 _], IHp2 as [IH2 _].
+    apply andb_true_iff in F as [F _]. apply andb_true_iff in F as [F _]. apply andb_true_iff in F as [F F2]. apply andb_true_iff in F as [_ F1].
+    rewrite (IH1 _ F1), (IH2 _ F2). reflexivity.
+  - destruct IHp as [IH _]. apply andb_true_iff in F as [F _]. apply andb_true_iff in F as [F _]. apply andb_true_iff in F as [_ F]. eauto.
+  - destruct IHp1 as [IH1 _], IHp2 as [IH2 _].
+    apply andb_true_iff in F as [F1 F2]. rewrite (IH1 _ F1), (IH2 _ F2). reflexivity.
+  - destruct IHp1 as [IH1 _], IHp2 as [IH2 _].
+    apply andb_true_iff in F as [F _]. apply andb_true_iff in F as [F1 F2].
+    rewrite (IH1 _ F1), (IH2 _ F2). reflexivity.
+  - destruct IHp as [IH _]. apply andb_true_iff in F as [F _]. apply andb_true_iff in F as [F _]. apply andb_true_iff in F as [_ F]. eauto.
   - exact F.
-  - eauto.
+  - destruct IHp as [IH _]. apply andb_true_iff in F as [_ F]. eauto.
+  - destruct IHp as [IH _]. exact IH.
+  - destruct IHp as [IH _]. eauto.
+  - destruct IHp as [IH _]. apply andb_true_iff in F as [_ F]. eauto.
 Qed.
+
+Lemma frag_shape names p : forall pushed, frag names pushed p = true -> shape p = true.
+Proof. apply frag_shape_aux. Qed.
+
+Scheme alg_mind := Induction for alg Sort Prop
+  with expr_mind := Induction for expr Sort Prop.
+Combined Scheme alg_expr_mutind from alg_mind, expr_mind.
 
 Section PD.
   Variable ds : dataset.
   Hypothesis Gn : graphs_nodup ds.
+  Hypothesis Dn : ds_nb ds.
   Let names := map fst (ds_named ds).
 
-  Theorem pushdown p : forall pushed, frag names pushed p = true ->
-    forall g c, NoDup g -> sol_wf c = true -> dom_in c pushed ->
+  Definition nonempty_l (L : list sol) : bool := match L with [] => false | _ => true end.
+
+  (* the push-down statement for a pattern *)
+  Definition PD (p : alg) : Prop :=
+    forall pushed, frag names pushed p = true ->
+    forall g c, gok g -> sol_wf c = true -> dom_in c pushed ->
     Permutation (eval_td ds g c p) (join_ctx c (eval_bu ds g p)).
+
+  (* EXISTS { p }: what 18.6 asks of the pattern for the current solution [m] *)
+  Definition found_bu (g : graph) (m : sol) (p : alg) : bool :=
+    match p with
+    | Filter true _ e' q =>
+        existsb (fun m' => compatible m' m && ebv (expr_bu ds g (merge m' m) e')) (eval_bu ds g q)
+    | _ => existsb (fun m' => compatible m' m) (eval_bu ds g p)
+    end.
+  Definition xfrag (pushed : list var) (p : alg) : bool :=
+    match p with
+    | Filter true _ e' q =>
+        frag names pushed q && efrag names (pushed ++ maybe q) e'
+        && negb (nonempty (inter (cmp_vars_e e') (bool_vars q)))
+    | _ => frag names pushed p
+    end.
+  Definition EX (p : alg) : Prop :=
+    forall pushed, xfrag pushed p = true ->
+    forall g c m2, gok g -> sol_wf c = true -> sol_wf m2 = true -> dom_in c pushed ->
+    (forall v, In v (allvars p) -> lookup v c = lookup v m2) ->
+    (forall v t, In v (cmp_vars p) -> lookup v m2 = Some t -> nb t = true) ->
+    nonempty_l (eval_td ds g c p) = found_bu g m2 p.
+
+  (* agreement of the two expression evaluators *)
+  Definition PE (e : expr) : Prop :=
+    forall pushed, efrag names pushed e = true ->
+    forall g m1 full m2, gok g -> sol_wf m1 = true -> sol_wf m2 = true -> dom_in m1 pushed ->
+    (forall v, In v (evars e) -> lookup v m1 = lookup v m2) ->
+    (forall v t, In v (cmp_vars_e e) -> lookup v m2 = Some t -> nb t = true) ->
+    expr_td ds g m1 full e = expr_bu ds g m2 e.
+
+  Lemma nonempty_perm A B : Permutation A B -> nonempty_l A = nonempty_l B.
+  Proof.
+    intros P. destruct A, B; try reflexivity.
+    - apply Permutation_nil in P. discriminate.
+    - symmetry in P. apply Permutation_nil in P. discriminate.
+  Qed.
+
+  Lemma nonempty_join_ctx c L : nonempty_l (join_ctx c L) = existsb (fun m' => compatible m' c) L.
+  Proof.
+    induction L as [|m L IH]; [reflexivity|]. rewrite join_ctx_cons. cbn [existsb].
+    destruct (compatible m c); [reflexivity|exact IH].
+  Qed.
+
+  Lemma compatible_agree m' c m2 (dom' : list var) :
+    sol_wf m' = true -> (forall v, lookup v m' <> None -> In v dom') ->
+    (forall v, In v dom' -> lookup v c = lookup v m2) -> compatible m' c = compatible m' m2.
+  Proof.
+    intros W D H. destruct (compatible m' c) eqn:C1, (compatible m' m2) eqn:C2; try reflexivity.
+    - apply (compatible_spec _ _ W) in C1.
+      assert (compat_prop m' m2).
+      { intros v t u L1 L2. rewrite <- H in L2 by (apply D; congruence). eapply C1; eauto. }
+      apply (compatible_spec _ _ W) in H0. congruence.
+    - apply (compatible_spec _ _ W) in C2.
+      assert (compat_prop m' c).
+      { intros v t u L1 L2. rewrite H in L2 by (apply D; congruence). eapply C2; eauto. }
+      apply (compatible_spec _ _ W) in H0. congruence.
+  Qed.
+
+  (* EXISTS over a pattern that is not a no_isolated_scope filter: from its push-down *)
+  Lemma ex_generic p g c m2 :
+    shape p = true -> sol_wf c = true ->
+    Permutation (eval_td ds g c p) (join_ctx c (eval_bu ds g p)) ->
+    (forall v, In v (allvars p) -> lookup v c = lookup v m2) ->
+    nonempty_l (eval_td ds g c p) = existsb (fun m' => compatible m' m2) (eval_bu ds g p).
+  Proof.
+    intros S Wc P H. rewrite (nonempty_perm _ _ P), nonempty_join_ctx.
+    assert (K : forall L, (forall m', In m' L -> In m' (eval_bu ds g p)) ->
+                existsb (fun m' => compatible m' c) L = existsb (fun m' => compatible m' m2) L).
+    { induction L as [|m' L IH]; intros Sub; [reflexivity|]. cbn.
+      rewrite IH by (intros; apply Sub; now right).
+      rewrite (compatible_agree m' c m2 (allvars p)); auto.
+      - eapply bu_wf; eauto. apply Sub. now left.
+      - intros v Hv. apply maybe_allvars. eapply maybe_sound; eauto. apply Sub. now left. }
+    apply K. auto.
+  Qed.
+
+  Lemma forget_dom pushed exc q g c m :
+    shape q = true -> dom_in c pushed -> In m (eval_bu ds g q) -> sol_wf m = true ->
+    dom_in (forget (merge c m) c exc) (inter pushed (optl exc) ++ maybe q).
+  Proof.
+    intros S Dc I Wm v Hv. unfold forget in Hv. rewrite lookup_restrict in Hv.
+    fold (optl exc) in Hv.
+    destruct (memv v (optl exc)) eqn:M; cbn in Hv.
+    - rewrite lookup_merge in Hv by exact Wm. apply in_or_app.
+      destruct (lookup v m) eqn:Lm; [right; apply (maybe_sound ds q S g m v I); congruence|].
+      left. unfold inter. apply filter_In. split; [now apply Dc|exact M].
+    - destruct (lookup v c) eqn:Lc; [congruence|].
+      rewrite lookup_merge in Hv by exact Wm. apply in_or_app. right.
+      destruct (lookup v m) eqn:Lm; [apply (maybe_sound ds q S g m v I); congruence|congruence].
+  Qed.
+
+  Definition SUB (p : alg) : Prop := match p with Project q _ => PD q | _ => True end.
+
+  Theorem pushdown_mut : (forall p, PD p /\ EX p /\ SUB p) /\ (forall e, PE e).
   Proof.
     destruct Gn as [names_nodup graphs_ok].
-    induction p; cbn [frag]; try discriminate; intros pushed F g0 c Ng Wc Dc.
+    (* EX from PD for the constructors that are not filters *)
+    assert (GEN : forall p, (forall pushed, xfrag pushed p = frag names pushed p) ->
+                    (forall g m, found_bu g m p = existsb (fun m' => compatible m' m) (eval_bu ds g p)) ->
+                    PD p -> EX p).
+    { intros p Hx Hf Hp pushed X g c m2 Ng Wc W2 Dc H _. rewrite Hx in X. rewrite Hf.
+      apply ex_generic; [eapply frag_shape; eauto|exact Wc|apply (Hp pushed X g c Ng Wc Dc)|exact H]. }
+    assert (TYP : forall q g m cv, shape q = true -> gok g -> In m (eval_bu ds g q) ->
+                    nonempty (inter cv (bool_vars q)) = false ->
+                    forall v t, In v cv -> lookup v m = Some t -> nb t = true).
+    { intros q g m cv Sq Gk Im E v t Iv L.
+      destruct (bu_typed ds q Sq Dn g m (proj2 Gk) Im v t L) as [Hn|Hb]; [exact Hn|].
+      exfalso. eapply inter_empty_elim; eauto. }
+    apply alg_expr_mutind.
     - (* BGP *)
+      intros ts. assert (HPD : PD (BGP ts)).
+      { intros pushed F g0 c Ng Wc Dc.
       cbn [eval_td eval_bu]. rewrite eval_bgp_ext, <- bgp_pushdown by exact Wc.
       apply bgp_ext_perm; [apply sort_ts_perm|exact Wc].
+      }
+      split; [exact HPD|split; [apply GEN; auto|exact I]].
     - (* Join *)
+      intros lazy p1 [IHp1 _] p2 [IHp2 [_ SUB2]]. assert (HPD : PD (Join lazy p1 p2)).
+      { intros pushed F g0 c Ng Wc Dc. cbn [frag] in F.
       apply andb_true_iff in F as [F12 Fh]. apply andb_true_iff in F12 as [F1 F2].
-      pose proof (frag_shape _ _ _ F1) as S1. pose proof (frag_shape _ _ _ F2) as S2.
+      pose proof (frag_shape _ _ _ F1) as S1.
+      apply orb_true_iff in F2 as [F2|FP].
+      2:{ (* a sub-SELECT as the right operand of a lazy join *)
+        destruct p2 as [ | | | | | | | |q vs| | ]; try discriminate FP.
+        apply andb_true_iff in FP as [FP Sv]. apply andb_true_iff in FP as [Lz Fq]. subst lazy.
+        rewrite subsetv_in in Sv. cbn [SUB] in SUB2.
+        pose proof (frag_shape _ _ _ Fq) as Sq. cbn [eval_td eval_bu].
+        set (vsf := fun v : var => memv v vs).
+        assert (WB2 : all_wf (map (restrict vsf) (eval_bu ds g0 q))).
+        { intros m Im. apply in_map_iff in Im as [m0 [<- I0]]. apply wf_restrict. eapply bu_wf; eauto. }
+        rewrite <- (lazy_join_lists c _ _ Wc (bu_wf ds p1 S1 g0) WB2).
+        etransitivity; [apply Permutation_flat_map; apply (IHp1 pushed F1 g0 c Ng Wc Dc)|].
+        apply flat_map_perm_pointwise. intros a Ia.
+        apply in_join_ctx in Ia as [m1 [I1 [C1 ->]]].
+        assert (W1 := bu_wf ds p1 S1 g0 m1 I1).
+        assert (Sa : sub_sol c (merge c m1)) by (apply sub_sol_merge_l; assumption).
+        rewrite (thaw_ext c _ Sa).
+        assert (Wa : sol_wf (merge c m1) = true) by (apply wf_merge, Wc).
+        assert (Da : dom_in (merge c m1) (pushed ++ maybe p1)).
+        { intros v Hv. rewrite lookup_merge in Hv by exact W1. apply in_or_app.
+          destruct (lookup v m1) eqn:L1; [right; apply (maybe_sound ds p1 S1 g0 m1 v I1); congruence|left; now apply Dc]. }
+        rewrite (map_id_in (fun b => merge b (merge c m1)) (join_ctx (merge c m1) _)).
+        - apply project_weak; [exact Wa|apply bu_wf, Sq|apply (SUB2 _ Fq g0 _ Ng Wa Da)|].
+          intros m Im v Hm Ha. apply memv_in, Sv. unfold inter. apply filter_In. split; [now apply Da|].
+          apply memv_in, maybe_allvars. apply (maybe_sound ds q Sq g0 m v Im Hm).
+        - intros z Iz. apply in_join_ctx in Iz as [r [Ir [Cr ->]]].
+          apply merge_absorb; [apply wf_merge, Wa|exact Wa|]. apply sub_sol_merge_l; auto. }
+      pose proof (frag_shape _ _ _ F2) as S2.
       destruct lazy; cbn [eval_td eval_bu].
       + (* evalLazyJoin *)
         rewrite <- (lazy_join_lists c _ _ Wc (bu_wf ds p1 S1 g0) (bu_wf ds p2 S2 g0)).
@@ -437,7 +694,8 @@ Section PD.
         cbn in Fh. unfold hash_ok in Fh. apply andb_true_iff in Fh as [Df Uh].
         pose proof (IHp1 pushed F1 g0 c Ng Wc Dc) as P1.
         pose proof (IHp2 pushed F2 g0 c Ng Wc Dc) as P2.
-        assert (Nb : NoDup (eval_bu ds g0 p2)) by (apply df_sound; auto; split; auto).
+        assert (Nb : NoDup (eval_bu ds g0 p2)).
+        { apply df_sound; auto; try (split; auto); apply (proj1 Ng). }
         assert (N2 : NoDup (join_ctx c (eval_bu ds g0 p2))).
         { apply orb_true_iff in Uh as [U|E].
           - apply NoDup_join_ctx; auto using bu_wf, un_sound.
@@ -448,9 +706,14 @@ Section PD.
         rewrite (dedup_NoDup _ N2').
         rewrite <- (hash_join_lists c _ _ Wc (bu_wf ds p1 S1 g0) (bu_wf ds p2 S2 g0)).
         etransitivity; [apply join_lists_perm_l; exact P1|apply join_lists_perm_r; exact P2].
+      }
+      split; [exact HPD|split; [apply GEN; auto|exact I]].
     - (* LeftJoin *)
-      apply andb_true_iff in F as [F12 F2]. apply andb_true_iff in F12 as [Lo F1].
-      unfold leftjoin_ok in Lo. apply andb_true_iff in Lo as [Lo Pv]. apply andb_true_iff in Lo as [Eo Ep].
+      intros p1vars p1 [IHp1 _] p2 [IHp2 _] e IHe. assert (HPD : PD (LeftJoin p1vars p1 p2 e)).
+      { intros pushed F g0 c Ng Wc Dc. cbn [frag] in F.
+      apply andb_true_iff in F as [F Ty]. apply negb_true_iff in Ty.
+      apply andb_true_iff in F as [F Ee]. apply andb_true_iff in F as [F12 F2]. apply andb_true_iff in F12 as [Lo F1].
+      unfold leftjoin_ok in Lo. apply andb_true_iff in Lo as [Ep Pv].
       apply negb_true_iff in Ep.
       assert (Enp : forall w, In w (evars e) -> lookup w c <> None -> ~ In w (maybe p1 ++ maybe p2)).
       { intros w Iw Lc Im.
@@ -477,10 +740,22 @@ Section PD.
           destruct (lookup w x) eqn:L1; [right; eapply maybe_sound; eauto; congruence|left; now apply Dc]. }
         rewrite (thaw_ext c _ Sa).
         set (fe := fun y => ebv (expr_bu ds g0 (merge x y) e)).
+        assert (TyXY : forall y, In y B -> forall v t, In v (cmp_vars_e e) -> lookup v (merge x y) = Some t -> nb t = true).
+        { intros y Iy v t Iv L. rewrite lookup_merge in L by (apply WB, Iy).
+          destruct (lookup v y) eqn:Ly.
+          - injection L as <-. destruct (bu_typed ds p2 S2 Dn g0 y (proj2 Ng) Iy v _ Ly) as [Hn|Hb]; [exact Hn|].
+            exfalso. eapply (inter_empty_elim _ _ v Ty); eauto. apply in_or_app. now right.
+          - destruct (bu_typed ds p1 S1 Dn g0 x (proj2 Ng) Ix v t L) as [Hn|Hb]; [exact Hn|].
+            exfalso. eapply (inter_empty_elim _ _ v Ty); eauto. apply in_or_app. now left. }
         assert (F1' : forall y, In y B -> compatible y (merge c x) = true ->
                   ebv (expr_td ds g0 (forget (merge (merge c x) y) c None) (merge (merge c x) y) e) = fe y).
         { intros y Iy Cy. assert (Wy := WB y Iy). unfold fe. f_equal.
-          apply (expr_ok_agree ds g0 _ e _ _ Eo).
+          apply (IHe _ Ee g0 _ _ _ Ng); [apply wf_restrict, wf_merge, Wa|apply wf_merge, Wx| | |apply (TyXY y Iy)].
+          { intros w Hw. unfold forget in Hw. rewrite lookup_restrict in Hw. cbn in Hw.
+            destruct (lookup w c) eqn:Lc; [congruence|].
+            rewrite !lookup_merge in Hw by assumption. rewrite Lc in Hw. apply in_or_app. right. apply in_or_app.
+            destruct (lookup w y) eqn:Ly; [right; apply (maybe_sound ds p2 S2 g0 y w Iy); congruence|].
+            left. apply (maybe_sound ds p1 S1 g0 x w Ix). destruct (lookup w x); congruence. }
           intros w Iw. unfold forget. rewrite lookup_restrict. cbn.
           rewrite !lookup_merge by assumption.
           destruct (lookup w c) as [u|] eqn:Lc; cbn.
@@ -492,7 +767,11 @@ Section PD.
           - destruct (lookup w y); [reflexivity|]. destruct (lookup w x); reflexivity. }
         assert (F2' : forall y, In y B -> compatible y x = true ->
                   ebv (expr_td ds g0 (merge x y) (merge x y) e) = fe y).
-        { intros y Iy Cy. unfold fe. f_equal. apply (expr_ok_agree ds g0 _ e _ _ Eo). reflexivity. }
+        { intros y Iy Cy. assert (Wy := WB y Iy). unfold fe. f_equal.
+          apply (IHe _ Ee g0 _ _ _ Ng); [apply wf_merge, Wx|apply wf_merge, Wx| |reflexivity|apply (TyXY y Iy)].
+          intros w Hw. rewrite lookup_merge in Hw by assumption. apply in_or_app. right. apply in_or_app.
+          destruct (lookup w y) eqn:Ly; [right; apply (maybe_sound ds p2 S2 g0 y w Iy); congruence|].
+          left. apply (maybe_sound ds p1 S1 g0 x w Ix Hw). }
         destruct p1vars as [vs|].
         * (* the second evaluation under remember(p1._vars) *)
           apply andb_true_iff in Pv as [Mv Pp]. rewrite subsetv_in in Mv.
@@ -531,9 +810,14 @@ Section PD.
         apply (compatible_spec _ _ Wm) in Cm.
         assert (compat_prop x c) by (eapply compat_sub_l; eauto).
         apply (compatible_spec _ _ Wx) in H. congruence.
+      }
+      split; [exact HPD|split; [apply GEN; auto|exact I]].
     - (* Filter *)
-      apply andb_true_iff in F as [FO F]. unfold filter_ok in FO.
-      apply andb_true_iff in FO as [FO Vo]. apply andb_true_iff in FO as [Nis Eo].
+      intros nis fvars e IHe p [IHp _]. assert (HPD : PD (Filter nis fvars e p)).
+      { intros pushed F g0 c Ng Wc Dc. cbn [frag] in F.
+      apply andb_true_iff in F as [F Ty]. apply negb_true_iff in Ty.
+      apply andb_true_iff in F as [F Ee]. apply andb_true_iff in F as [FO F]. unfold filter_ok in FO.
+      apply andb_true_iff in FO as [Nis Vo].
       apply negb_true_iff in Nis. subst nis.
       pose proof (frag_shape _ _ _ F) as S. cbn [eval_td eval_bu].
       rewrite <- (filter_join_ctx c
@@ -541,11 +825,55 @@ Section PD.
                    (fun m => ebv (expr_bu ds g0 m e))).
       + apply Permutation_filter'. apply (IHp pushed F g0 c Ng Wc Dc).
       + intros m I Cm. assert (Wm := bu_wf ds p S g0 m I). f_equal.
-        apply (expr_ok_agree ds g0 _ e _ _ Eo).
-        apply (vis_lookup ds pushed fvars p e g0 c m S Vo Dc I Wm).
+        apply (IHe _ Ee g0 _ _ _ Ng); [apply wf_restrict, wf_merge, Wc|exact Wm| | |].
+        * apply (forget_dom pushed fvars p g0 c m S Dc I Wm).
+        * apply (vis_lookup ds pushed fvars p e g0 c m S Vo Dc I Wm).
+        * apply (TYP p g0 m _ S Ng I Ty).
+      }
+      split; [exact HPD|split; [|exact I]].
+      destruct nis; [|apply GEN; auto].
+      (* the filter at the top of an EXISTS pattern sees the merged solution *)
+      intros pushed X g0 c m2 Ng Wc W2 Dc H TyM. cbn [xfrag found_bu] in *.
+      apply andb_true_iff in X as [X Ty]. apply negb_true_iff in Ty.
+      apply andb_true_iff in X as [F Ee]. pose proof (frag_shape _ _ _ F) as S.
+      cbn [eval_td].
+      rewrite (nonempty_perm _ _ (Permutation_filter' _ _ _ (IHp pushed F g0 c Ng Wc Dc))).
+      set (B := eval_bu ds g0 p).
+      assert (K : forall L, (forall m', In m' L -> In m' B) ->
+         nonempty_l (filter (fun s => ebv (expr_td ds g0 s s e)) (join_ctx c L))
+         = existsb (fun m' => compatible m' m2 && ebv (expr_bu ds g0 (merge m' m2) e)) L).
+      { induction L as [|m' L IH]; intros Sub; [reflexivity|].
+        assert (Im : In m' B) by (apply Sub; now left). assert (Wm := bu_wf ds p S g0 m' Im).
+        assert (Dm : forall v, lookup v m' <> None -> In v (allvars (Filter true fvars e p))).
+        { intros v Hv. cbn. apply in_or_app. right. apply maybe_allvars. apply (maybe_sound ds p S g0 m' v Im Hv). }
+        rewrite join_ctx_cons, filter_app. cbn [existsb].
+        rewrite <- (compatible_agree m' c m2 (allvars (Filter true fvars e p)) Wm Dm H).
+        rewrite <- IH by (intros; apply Sub; now right).
+        destruct (compatible m' c) eqn:Cm; cbn [filter app andb orb]; [|reflexivity].
+        assert (Ev : expr_td ds g0 (merge c m') (merge c m') e = expr_bu ds g0 (merge m' m2) e).
+        { apply (IHe _ Ee g0 _ _ _ Ng); [apply wf_merge, Wc|apply wf_merge, Wm| | |].
+          3:{ intros v t Iv Lq. rewrite lookup_merge in Lq by exact W2.
+              destruct (lookup v m2) eqn:L2.
+              - injection Lq as <-. apply (TyM v t0); [cbn; apply in_or_app; now left|exact L2].
+              - apply (TYP p g0 m' _ S Ng Im Ty v t Iv Lq). }
+          - intros v Hv. rewrite lookup_merge in Hv by exact Wm. apply in_or_app.
+            destruct (lookup v m') eqn:Lq; [right; apply (maybe_sound ds p S g0 m' v Im); congruence|left; now apply Dc].
+          - intros v Iv. rewrite !lookup_merge by assumption.
+            assert (Hc : lookup v c = lookup v m2) by (apply H; cbn; apply in_or_app; now left).
+            rewrite <- Hc. apply (compatible_spec _ _ Wm) in Cm.
+            destruct (lookup v c) as [u|] eqn:Lc; destruct (lookup v m') as [t|] eqn:Lm; try reflexivity.
+            f_equal. eapply Cm; eauto. }
+        rewrite Ev. destruct (ebv (expr_bu ds g0 (merge m' m2) e)); reflexivity. }
+      apply K. auto.
     - (* Union *)
+      intros p1 [IHp1 _] p2 [IHp2 _]. assert (HPD : PD (Union p1 p2)).
+      { intros pushed F g0 c Ng Wc Dc. cbn [frag] in F.
       apply andb_true_iff in F as [F1 F2]. apply td_union; eauto.
+      }
+      split; [exact HPD|split; [apply GEN; auto|exact I]].
     - (* Minus *)
+      intros p1 [IHp1 _] p2 [IHp2 _]. assert (HPD : PD (Minus p1 p2)).
+      { intros pushed F g0 c Ng Wc Dc. cbn [frag] in F.
       apply andb_true_iff in F as [F12 Mo]. apply andb_true_iff in F12 as [F1 F2].
       pose proof (frag_shape _ _ _ F1) as S1. pose proof (frag_shape _ _ _ F2) as S2.
       pose proof (IHp1 pushed F1 g0 c Ng Wc Dc) as P1.
@@ -619,9 +947,14 @@ Section PD.
                apply compat_ctx_both in Cc; auto; [|now apply (compatible_spec _ _ Wy)].
                apply (compatible_spec _ _ Wx) in Cc. rewrite (proj1 R eq_refl y Iy) in Cc. discriminate. }
              apply L in Hh. discriminate.
+      }
+      split; [exact HPD|split; [apply GEN; auto|exact I]].
     - (* Extend *)
-      apply andb_true_iff in F as [Eo F]. unfold extend_ok in Eo.
-      apply andb_true_iff in Eo as [Eo Vo]. apply andb_true_iff in Eo as [Eo Se].
+      intros xvars p [IHp _] v e IHe. assert (HPD : PD (Extend xvars p v e)).
+      { intros pushed F g0 c Ng Wc Dc. cbn [frag] in F.
+      apply andb_true_iff in F as [F Ty]. apply negb_true_iff in Ty.
+      apply andb_true_iff in F as [F Ee]. apply andb_true_iff in F as [Eo F]. unfold extend_ok in Eo.
+      apply andb_true_iff in Eo as [Eo Vo].
       apply andb_true_iff in Eo as [Vp Vq]. apply negb_true_iff in Vp, Vq.
       pose proof (frag_shape _ _ _ F) as S. cbn [eval_td eval_bu].
       rewrite (IHp pushed F g0 c Ng Wc Dc).
@@ -637,7 +970,10 @@ Section PD.
       { destruct (lookup v c) eqn:L; [|reflexivity].
         assert (In v pushed) by (apply Dc; congruence). apply memv_in in H. congruence. }
       assert (Ev : expr_td ds g0 (forget (merge c m) c xvars) (merge c m) e = expr_bu ds g0 m e).
-      { apply (expr_ok_agree ds g0 _ e _ _ Se). apply (vis_lookup ds pushed xvars p e g0 c m S Vo Dc I Wm). }
+      { apply (IHe _ Ee g0 _ _ _ Ng); [apply wf_restrict, wf_merge, Wc|exact Wm| | |].
+        - apply (forget_dom pushed xvars p g0 c m S Dc I Wm).
+        - apply (vis_lookup ds pushed xvars p e g0 c m S Vo Dc I Wm).
+        - apply (TYP p g0 m _ S Ng I Ty). }
       unfold ext_step. rewrite Lvm. destruct (expr_bu ds g0 m e) as [t|] eqn:Eb.
       + split.
         * destruct (compatible m c) eqn:Cm.
@@ -652,26 +988,95 @@ Section PD.
              apply (compatible_spec _ _ Wm) in H. congruence.
         * intros Cm. rewrite Ev. symmetry. now apply merge_bind_comm.
       + split; [reflexivity|]. intros Cm. now rewrite Ev.
+      }
+      split; [exact HPD|split; [apply GEN; auto|exact I]].
     - (* Values *)
+      intros rows. assert (HPD : PD (Values rows)).
+      { intros pushed F g0 c Ng Wc Dc.
       rewrite td_values. reflexivity.
+      }
+      split; [exact HPD|split; [apply GEN; auto|exact I]].
+    - (* Project: where nothing can be pushed in (elsewhere see the Join case) *)
+      intros p [IHp _] vs. assert (HPD : PD (Project p vs)).
+      { intros pushed F g0 c Ng Wc Dc. cbn [frag] in F.
+        apply andb_true_iff in F as [E F]. apply negb_true_iff in E.
+        assert (pushed = []) by (destruct pushed; [reflexivity|discriminate]). subst pushed.
+        assert (c = []) by apply (dom_in_nil c Dc). subst c. pose proof (frag_shape _ _ _ F) as S.
+        cbn [eval_td eval_bu].
+        rewrite join_ctx_nil.
+        - apply Permutation_map. rewrite (IHp [] F g0 [] Ng Wc Dc). rewrite join_ctx_nil; [reflexivity|apply bu_wf, S].
+        - intros m Im. apply in_map_iff in Im as [m0 [<- I0]]. apply wf_restrict. eapply bu_wf; eauto. }
+      split; [exact HPD|split; [apply GEN; auto|exact IHp]].
     - (* Graph *)
+      intros g p [IHp _]. assert (HPD : PD (Graph g p)).
+      { intros pushed F g0 c Ng Wc Dc. cbn [frag] in F.
       pose proof (frag_shape _ _ _ F) as S.
       destruct g as [t|v]; cbn [eval_td eval_bu ctx_get].
       + (* an IRI: nothing unless it names a graph of the dataset *)
         destruct (existsb (fun ng : N * graph => N.eqb (fst ng) t) (ds_named ds)) eqn:Ex; [|reflexivity].
-        apply (IHp pushed F _ c (named_graph_NoDup _ t graphs_ok) Wc Dc).
+        apply (IHp pushed F _ c (conj (named_graph_NoDup _ t graphs_ok) (named_graph_nb ds t Dn)) Wc Dc).
       + (* a variable *)
         destruct (lookup v c) as [t|] eqn:Lv.
         * (* bound by the context *)
           rewrite join_ctx_flat_map.
           rewrite (flat_map_named _ (fun gr => join_ctx c (eval_bu ds gr p)) (ds_named ds) t names_nodup).
           -- destruct (existsb (fun ng : N * graph => N.eqb (fst ng) t) (ds_named ds)) eqn:Ex; [|reflexivity].
-             apply (IHp pushed F _ c (named_graph_NoDup _ t graphs_ok) Wc Dc).
+             apply (IHp pushed F _ c (conj (named_graph_NoDup _ t graphs_ok) (named_graph_nb ds t Dn)) Wc Dc).
           -- intros ng _ D. apply graph_bound_other with (t := t); auto. apply bu_wf, S.
           -- intros ng _ E. rewrite E. apply graph_bound_same; auto. apply bu_wf, S.
         * (* unbound: every named graph *)
           rewrite join_ctx_flat_map. apply flat_map_perm_pointwise. intros ng Ing.
           rewrite <- join_single_ctx; [|exact Wc|apply bu_wf, S|reflexivity].
-          apply join_lists_perm_l. apply (IHp pushed F _ c (graphs_ok ng Ing) Wc Dc).
+          apply join_lists_perm_l. apply (IHp pushed F _ c (conj (graphs_ok ng Ing) (proj2 (Dn ng Ing))) Wc Dc).
+      }
+      split; [exact HPD|split; [apply GEN; auto|exact I]].
+    - (* Distinct: where nothing can be pushed in *)
+      intros p [IHp _]. assert (HPD : PD (Distinct p)).
+      { intros pushed F g0 c Ng Wc Dc. cbn [frag] in F.
+        apply andb_true_iff in F as [E F]. apply negb_true_iff in E.
+        assert (pushed = []) by (destruct pushed; [reflexivity|discriminate]). subst pushed.
+        assert (c = []) by apply (dom_in_nil c Dc). subst c. pose proof (frag_shape _ _ _ F) as S.
+        cbn [eval_td eval_bu].
+        rewrite join_ctx_nil.
+        - apply dedup_perm. rewrite (IHp [] F g0 [] Ng Wc Dc). rewrite join_ctx_nil; [reflexivity|apply bu_wf, S].
+        - intros m Im. apply (proj1 (dedup_in _ _)) in Im. eapply bu_wf; eauto. }
+      split; [exact HPD|split; [apply GEN; auto|exact I]].
+    - (* EVar *)
+      intros v pushed _ g m1 full m2 _ _ _ _ H _. cbn. apply H. now left.
+    - intros t pushed _ g m1 full m2 _ _ _ _ H _. reflexivity.
+    - (* ECmp: atoms that are not boolean literals *)
+      intros op a _ b _ pushed S g m1 full m2 _ _ _ _ H T. cbn in S.
+      apply cmp_atoms_agree; auto.
+      intros v t Iv. apply T. cbn. rewrite app_assoc. apply in_or_app. now left.
+    - (* EAnd *)
+      intros a IHa b IHb pushed S g m1 full m2 Ng W1 W2 D H T. cbn in S. apply andb_true_iff in S as [S1 S2]. cbn.
+      rewrite (IHa _ S1 g m1 full m2 Ng W1 W2 D), (IHb _ S2 g m1 full m2 Ng W1 W2 D); [reflexivity| | | |];
+        try (intros v Iv; apply H; cbn; apply in_or_app; auto);
+        intros v t Iv; apply T; cbn; apply in_or_app; auto.
+    - (* EOr *)
+      intros a IHa b IHb pushed S g m1 full m2 Ng W1 W2 D H T. cbn in S. apply andb_true_iff in S as [S1 S2]. cbn.
+      rewrite (IHa _ S1 g m1 full m2 Ng W1 W2 D), (IHb _ S2 g m1 full m2 Ng W1 W2 D); [reflexivity| | | |];
+        try (intros v Iv; apply H; cbn; apply in_or_app; auto);
+        intros v t Iv; apply T; cbn; apply in_or_app; auto.
+    - (* ENot *)
+      intros a IHa pushed S g m1 full m2 Ng W1 W2 D H T. cbn in S. cbn. now rewrite (IHa _ S g m1 full m2 Ng W1 W2 D H T).
+    - (* EBound *)
+      intros v pushed _ g m1 full m2 _ _ _ _ H _. cbn. rewrite (H v); [reflexivity|now left].
+    - (* EExists *)
+      intros pos p [_ [IHx _]] pushed S g m1 full m2 Ng W1 W2 D H T.
+      change (efrag names pushed (EExists pos p)) with (xfrag pushed p) in S.
+      cbn [expr_td expr_bu]. unfold thaw.
+      change (match eval_td ds g m1 p with [] => false | _ :: _ => true end) with (nonempty_l (eval_td ds g m1 p)).
+      rewrite (IHx pushed S g m1 m2 Ng W1 W2 D H T). reflexivity.
   Qed.
+
+  Theorem pushdown p : forall pushed, frag names pushed p = true ->
+    forall g c, gok g -> sol_wf c = true -> dom_in c pushed ->
+    Permutation (eval_td ds g c p) (join_ctx c (eval_bu ds g p)).
+  Proof. exact (proj1 (proj1 pushdown_mut p)). Qed.
+
+
+  Theorem expr_agree e : PE e.
+  Proof. exact (proj2 pushdown_mut e). Qed.
 End PD.
+
